@@ -99,6 +99,10 @@ def main() -> int:
                 if db.exists():
                     db.rename(aside)
                 db.write_text("this is not a database " * 40)
+            if b.get("corrupt_hashes"):
+                # the cache of file hashes pytask rewrites at the end of every build, broken by someone else in between
+                (proj / ".pytask").mkdir(exist_ok=True)
+                (proj / ".pytask" / "file_hashes.json").write_text('{"broken": ')
             rec = {"before": snap()}
             try:
                 session = pytask.build(paths=root / b["sub"], **b["kw"])
